@@ -4224,6 +4224,8 @@ def qr(a, mode='reduced', inner_labels=[None, None], cutoff=None, pos_diag_R=Fal
                 continue
         if pos_diag_R:
             r_diag = np.diag(r_block)
+            # no phase for an exact zero on the diagonal (rank deficient block): avoid 0/0 = NaN
+            r_diag = np.where(r_diag == 0, 1.0, r_diag)
             phase = r_diag / np.abs(r_diag)
             K = len(r_diag)
             if K < q_block.shape[1]:
